@@ -101,7 +101,10 @@ impl Names {
         // private names (equal length on both sides so that the second program can be a mutation
         // of the first): equal names (renaming needed), disjoint names, a clash with the `_p`
         // suffix anthem appends, swapped roles
-        let (lp, rp) = match c.next(6) {
+        let (lp, rp) = match c.next(8) {
+            // a propositional private predicate (defined by facts or rules) next to a unary one
+            6 => (vec![p("a", 1), p("e", 0)], vec![p("a", 1), p("e", 0)]),
+            7 => (vec![p("e", 0), p("b", 1)], vec![p("f", 0), p("c", 1)]),
             0 => (vec![p("a", 1)], vec![p("a", 1)]),
             1 => (vec![p("a", 1), p("b", 1)], vec![p("c", 1), p("d", 1)]),
             2 => (vec![p("a", 1), p("a_p", 1)], vec![p("a", 1), p("b", 1)]),
@@ -151,7 +154,16 @@ const RELS: [asp::Relation; 6] = [
 
 /// a small term over a bound variable, numerals and (integer) placeholders
 fn small_term(c: &mut Chooser, names: &Names, v: &str) -> asp::Term {
-    match c.next(7) {
+    match c.next(9) {
+        7 => match names.placeholders.first() {
+            // a placeholder that occurs only inside arithmetic
+            Some((n, fol::Sort::Integer)) => binop(asp::BinaryOperator::Add, sym(n), num(1)),
+            _ => num(3),
+        },
+        8 => match names.placeholders.first() {
+            Some((n, fol::Sort::Integer)) => binop(asp::BinaryOperator::Multiply, num(2), sym(n)),
+            _ => binop(asp::BinaryOperator::Subtract, var(v), num(1)),
+        },
         0 | 1 => num(c.next(4) as isize),
         2 => var(v),
         3 => binop(asp::BinaryOperator::Add, var(v), num(1)),
@@ -180,8 +192,9 @@ fn rule_for(c: &mut Chooser, names: &Names, head: &Pred, lower: &[Pred], negatab
         };
     }
     let mut body = vec![];
-    // X is bound by the first positive literal
-    let first = c.pick(lower).clone();
+    // X is bound by the first positive literal (a predicate with an argument)
+    let binders: Vec<Pred> = lower.iter().filter(|q| q.1 > 0).cloned().collect();
+    let first = c.pick(&binders).clone();
     let first_arg = if c.flag(1, 6) { binop(asp::BinaryOperator::Add, var("X"), num(1)) } else { var("X") };
     body.push(lit(asp::Sign::NoSign, atom(&first, vec![first_arg])));
     let mut vars = vec!["X"];
@@ -194,8 +207,9 @@ fn rule_for(c: &mut Chooser, names: &Names, head: &Pred, lower: &[Pred], negatab
         ));
         if v == "Y" {
             // a doubly negated literal does not bind: bind Y positively as well
-            if matches!(body.last(), Some(asp::AtomicFormula::Literal(l)) if l.sign == asp::Sign::DoubleNegation) {
-                body.push(lit(asp::Sign::NoSign, atom(c.pick(lower), vec![var("Y")])));
+            let binds = matches!(body.last(), Some(asp::AtomicFormula::Literal(l)) if l.sign == asp::Sign::NoSign && !l.atom.terms.is_empty());
+            if !binds {
+                body.push(lit(asp::Sign::NoSign, atom(c.pick(&binders), vec![var("Y")])));
             }
             vars.push("Y");
         }
@@ -258,7 +272,8 @@ pub fn program(c: &mut Chooser, names: &Names, private: &[Pred], outputs: &[Pred
     }
     // constraints
     if c.flag(1, 3) {
-        let p = c.pick(&lower).clone();
+        let with_args: Vec<Pred> = lower.iter().filter(|q| q.1 > 0).cloned().collect();
+        let p = c.pick(&with_args).clone();
         let mut body = vec![lit(asp::Sign::NoSign, atom(&p, vec![var("X")]))];
         if c.flag(1, 2) {
             let q = c.pick(&lower).clone();
